@@ -7,7 +7,7 @@
   conditions are the ones the Python code itself has: `struct.pack(">I", n)` needs n < 2³² and
   `encode_op_pushdata` refuses more than 2³²−1 bytes.
 -/
-import BtcVerif.Proofs.C08Shape
+import BtcVerif.Proofs.C08Char
 
 namespace BtcVerif.C08
 open BtcVerif
@@ -106,14 +106,44 @@ theorem build_fails_iff (ts : List Token) :
   rw [← build_toOption]
   rcases Model.Script.build ts with e | r <;> simp [Except.toOption]
 
-/-- `script + other` appends the reference bytes of the token -/
+/-- `script + other` appends the reference bytes of the token; an element that is not a script
+    element raises TypeError -/
 theorem add_eq_spec (s : Bytes) (t : Token) (b : Bytes) :
     Model.Script.add s t = .ok b ↔ ∃ a, Spec.Script.tokenBytes t = some a ∧ b = s ++ a := by
   unfold Model.Script.add
   rw [coerceInstance_eq]
-  rcases Spec.Script.tokenBytes t with _ | a
-  · simp
-  · simp [eq_comm]
+  by_cases ho : t = .other
+  · subst ho; simp [Spec.Script.tokenBytes]
+  · simp only [ho, if_false]
+    rcases Spec.Script.tokenBytes t with _ | a
+    · simp
+    · simp [eq_comm]
+
+theorem add_other_typeerror (s : Bytes) : Model.Script.add s .other = .error (.py "TypeError") := rfl
+
+/-- building concatenates: `CScript(xs + ys) = CScript(xs) + CScript(ys)` as bytes -/
+theorem build_append (xs ys : List Token) (a b : Bytes) (ha : Model.Script.build xs = .ok a)
+    (hb : Model.Script.build ys = .ok b) : Model.Script.build (xs ++ ys) = .ok (a ++ b) := by
+  rw [build_eq_spec] at ha hb ⊢
+  rw [specBuild_append, ha, hb]
+
+/-- … and a concatenation builds only if both parts build -/
+theorem build_append_inv (xs ys : List Token) (s : Bytes) (h : Model.Script.build (xs ++ ys) = .ok s) :
+    ∃ a b, Model.Script.build xs = .ok a ∧ Model.Script.build ys = .ok b ∧ s = a ++ b := by
+  rw [build_eq_spec, specBuild_append] at h
+  rcases ha : Spec.Script.build xs with _ | a <;> rcases hb : Spec.Script.build ys with _ | b <;>
+    rw [ha, hb] at h <;> simp at h
+  exact ⟨a, b, (build_eq_spec _ _).mpr ha, (build_eq_spec _ _).mpr hb, h.symm⟩
+
+/-- a list containing an element of a non-script type never builds (TypeError from the join, or an
+    earlier element's own error), and bool elements build as the integers 1 / 0 -/
+theorem build_other_fails (xs ys : List Token) : ∃ e, Model.Script.build (xs ++ .other :: ys) = .error e := by
+  rw [build_fails_iff, specBuild_append]
+  rcases Spec.Script.build xs with _ | a <;> simp [Spec.Script.build, Spec.Script.tokenBytes]
+
+theorem build_bool (b : Bool) :
+    Model.Script.build [.bool b] = Model.Script.build [.int (if b then 1 else 0)] := by
+  rcases b <;> rfl
 
 /-- integers 0..16 become the single opcode OP_0 / OP_1..OP_16, −1 becomes OP_1NEGATE -/
 theorem build_minimal_small_int (z : Int) :
@@ -187,7 +217,9 @@ theorem build_defined (ts : List Token)
     (h : ∀ t ∈ ts, match t with
       | .op n => n < 256
       | .int z => z.natAbs < 128 * 256 ^ (2 ^ 32 - 2)
-      | .data d => d.length < 2 ^ 32) :
+      | .data d => d.length < 2 ^ 32
+      | .bool _ => True
+      | .other => False) :
     ∃ s, Model.Script.build ts = .ok s := by
   induction ts with
   | nil => exact ⟨[], rfl⟩
@@ -195,7 +227,7 @@ theorem build_defined (ts : List Token)
     obtain ⟨r, hr⟩ := ih (fun x hx => h x (by simp [hx]))
     have ht := h t (by simp)
     have : ∃ a, Spec.Script.tokenBytes t = some a := by
-      rcases t with n | z | d
+      rcases t with n | z | d | b | _
       · simp only at ht; simp [Spec.Script.tokenBytes, ht]
       · simp only at ht
         simp only [Spec.Script.tokenBytes]
@@ -214,6 +246,8 @@ theorem build_defined (ts : List Token)
         rcases hp : Spec.Script.pushEncode d with _ | e
         · rw [pushEncode_none_iff] at hp; omega
         · exact ⟨e, rfl⟩
+      · exact ⟨_, rfl⟩
+      · exact absurd ht (by simp)
     obtain ⟨a, ha⟩ := this
     refine ⟨a ++ r, ?_⟩
     rw [build_eq_spec] at hr ⊢
@@ -244,11 +278,14 @@ theorem build_iter_build (ts : List Token) (s : Bytes) (h : Model.Script.build t
 /-- raw iteration splits ANY byte string into consecutive operations: the concatenation of the
     operations' bytes (opcode, length field, payload) is a prefix of the script, each reported
     `sop_idx` is the offset of that operation, the prefix is the whole script when no error is
-    raised, and when an error is raised the remainder begins with a truncated push -/
+    raised, and when an error is raised the remainder `b :: t` begins with a truncated push and the
+    error is the one for that push: CScriptInvalidError if the length field is incomplete, else
+    CScriptTruncatedPushDataError carrying exactly the payload bytes that are present -/
 theorem raw_iter_partition (s : Bytes) :
     ∃ rest, s = ((Model.Script.rawIter s).1.map Model.Script.RawOp.enc).flatten ++ rest ∧
       ((Model.Script.rawIter s).2 = none → rest = []) ∧
-      ((Model.Script.rawIter s).2 ≠ none → Spec.Script.TruncatedPush rest) ∧
+      (∀ e, (Model.Script.rawIter s).2 = some e →
+        ∃ b t, rest = b :: t ∧ e = Model.Script.truncErr b t ∧ Spec.Script.TruncatedPush rest) ∧
       (∀ i (h : i < (Model.Script.rawIter s).1.length),
         ((Model.Script.rawIter s).1[i]).sopIdx =
           (((Model.Script.rawIter s).1.take i).map Model.Script.RawOp.enc).flatten.length) := by
@@ -273,7 +310,30 @@ theorem raw_iter_error (s : Bytes) (ops : List Model.Script.RawOp) (e : Model.Sc
     ∃ rest, s = (ops.map Model.Script.RawOp.enc).flatten ++ rest ∧ Spec.Script.TruncatedPush rest := by
   obtain ⟨rest, h1, _, h3, _⟩ := raw_iter_partition s
   rw [h] at h1 h3
-  exact ⟨rest, h1, h3 (by simp)⟩
+  obtain ⟨_, _, _, _, ht⟩ := h3 e rfl
+  exact ⟨rest, h1, ht⟩
+
+/-- the data carried by CScriptTruncatedPushDataError is everything after the length field of the
+    offending push, and it is shorter than the declared size -/
+theorem raw_iter_error_data (s : Bytes) (ops : List Model.Script.RawOp) (d : Bytes)
+    (h : Model.Script.rawIter s = (ops, some (.truncated d))) :
+    ∃ b t, s = (ops.map Model.Script.RawOp.enc).flatten ++ b :: t ∧
+      Spec.Script.lenBytes b.toNat ≤ t.length ∧ d = t.drop (Spec.Script.lenBytes b.toNat) ∧
+      d.length < Spec.Script.declaredSize b.toNat t := by
+  obtain ⟨rest, h1, _, h3, _⟩ := raw_iter_partition s
+  rw [h] at h1 h3
+  obtain ⟨b, t, hr, he, ⟨b', t', hbt, _, hlen⟩⟩ := h3 _ rfl
+  subst hr
+  simp only [List.cons.injEq] at hbt
+  obtain ⟨rfl, rfl⟩ := hbt
+  unfold Model.Script.truncErr at he
+  by_cases hw : t.length < Spec.Script.lenBytes b.toNat
+  · simp [hw] at he
+  · simp only [hw, if_false, Model.Script.IterErr.truncated.injEq] at he
+    refine ⟨b, t, h1, by omega, he, ?_⟩
+    rcases hlen with hl | hl
+    · exact absurd hl hw
+    · rw [he, List.length_drop]; exact hl
 
 /-- raw iteration reads exactly the operations Core's GetScriptOp loop reads, ends without error
     exactly when that loop reaches the end, and reports data for push opcodes only -/
@@ -388,6 +448,177 @@ theorem sigops_accurate_le_legacy (s : Bytes) :
         · rename_i hh; unfold Spec.Script.decodeOPN; split <;> omega
         · omega
       · omega
+
+/-! ### independent characterisations (not transcriptions of the code)
+
+  The `pred_eq_spec_*` / `sigops_eq_spec` theorems above compare the code with Core's definitions,
+  several of which have the same shape as the code.  The theorems below pin the same functions by
+  what they mean: scripts as concatenations of operation encodings, fixed byte layouts, and
+  compositional laws. -/
+
+open BtcVerif.Spec.Script (ValidOp opEnc encOps opN)
+
+/-- P2SH: exactly HASH160, a direct push of 20 bytes, EQUAL -/
+theorem isP2sh_iff (s : Bytes) :
+    Model.Script.isP2sh s = true ↔ ∃ h : Bytes, h.length = 20 ∧ s = [0xa9, 0x14] ++ h ++ [0x87] :=
+  isP2sh_shape s
+
+/-- witness program: OP_0 / OP_1..OP_16 for a version ≤ 16, then one direct push of 2..40 bytes -/
+theorem isWitnessProgram_iff (s : Bytes) :
+    Model.Script.isWitnessScriptPubKey s = .ok true ↔
+      ∃ v : Nat, ∃ prog : Bytes, v ≤ 16 ∧ 2 ≤ prog.length ∧ prog.length ≤ 40 ∧
+        s = [UInt8.ofNat (opN v), UInt8.ofNat prog.length] ++ prog := by
+  rw [pred_eq_spec_witness_program, ← isWitnessProgram_shape]
+  simp
+
+theorem isWitnessV0Keyhash_iff (s : Bytes) :
+    Model.Script.isWitnessV0Keyhash s = true ↔ ∃ h : Bytes, h.length = 20 ∧ s = [0x00, 0x14] ++ h :=
+  shape2 s 0x00 0x14 20
+
+theorem isWitnessV0Scripthash_iff (s : Bytes) :
+    Model.Script.isWitnessV0Scripthash s = true ↔ ∃ h : Bytes, h.length = 32 ∧ s = [0x00, 0x20] ++ h :=
+  shape2 s 0x00 0x20 32
+
+theorem isWitnessV0NestedKeyhash_iff (s : Bytes) :
+    Model.Script.isWitnessV0NestedKeyhash s = true ↔
+      ∃ h : Bytes, h.length = 20 ∧ s = [0x16, 0x00, 0x14] ++ h :=
+  shape3 s 0x16 0x00 0x14 20
+
+theorem isWitnessV0NestedScripthash_iff (s : Bytes) :
+    Model.Script.isWitnessV0NestedScripthash s = true ↔
+      ∃ h : Bytes, h.length = 32 ∧ s = [0x22, 0x00, 0x20] ++ h :=
+  shape3 s 0x22 0x00 0x20 32
+
+theorem isUnspendable_iff (s : Bytes) :
+    Model.Script.isUnspendable s = true ↔ ∃ t : Bytes, s = 0x6a :: t := by
+  rcases s with _ | ⟨b, t⟩ <;> simp [Model.Script.isUnspendable]
+
+/-- valid ⇔ every byte belongs to a complete operation: the script is a concatenation of
+    operation encodings (opcode byte, length field, payload of the declared length) -/
+theorem isValid_iff (s : Bytes) :
+    Model.Script.isValid s = .ok true ↔
+      ∃ ops : List (Nat × Bytes), (∀ p ∈ ops, ValidOp p.1 p.2) ∧ s = encOps ops := by
+  rw [pred_eq_spec_valid]
+  simp only [Except.ok.injEq, Spec.Script.isValid]
+  constructor
+  · intro h
+    exact ⟨(Spec.Script.parse s).1, (parse_iff _ s).mp (by rw [← h])⟩
+  · rintro ⟨ops, h⟩
+    rw [(parse_iff ops s).mpr h]
+
+/-- push-only ⇔ a concatenation of complete operations each with opcode ≤ OP_16 -/
+theorem isPushOnly_iff (s : Bytes) :
+    Model.Script.isPushOnly s = true ↔
+      ∃ ops : List (Nat × Bytes), (∀ p ∈ ops, ValidOp p.1 p.2 ∧ p.1 ≤ 0x60) ∧ s = encOps ops := by
+  rw [pred_eq_spec_push_only]
+  simp only [Spec.Script.isPushOnly, Bool.and_eq_true, List.all_eq_true, decide_eq_true_eq]
+  constructor
+  · rintro ⟨h1, h2⟩
+    obtain ⟨hv, hs⟩ := (parse_iff _ s).mp (by rw [← h1])
+    exact ⟨(Spec.Script.parse s).1, fun p hp => ⟨hv p hp, h2 p hp⟩, hs⟩
+  · rintro ⟨ops, h, hs⟩
+    have := (parse_iff ops s).mpr ⟨fun p hp => (h p hp).1, hs⟩
+    rw [this]
+    exact ⟨rfl, fun p hp => (h p hp).2⟩
+
+/-- canonical pushes ⇔ a concatenation of complete operations in which every push is the
+    builder's (shortest) encoding of its payload and no payload is a single byte 0..16 -/
+theorem hasCanonicalPushes_iff (s : Bytes) :
+    Model.Script.hasCanonicalPushes s = .ok true ↔
+      ∃ ops : List (Nat × Bytes),
+        (∀ p ∈ ops, ValidOp p.1 p.2 ∧
+          (p.1 ≤ 0x4e → Spec.Script.pushEncode p.2 = some (opEnc p.1 p.2) ∧
+            ¬ ∃ x : UInt8, p.2 = [x] ∧ x.toNat ≤ 16)) ∧
+        s = encOps ops := by
+  rw [pred_eq_spec_canonical_pushes]
+  simp only [Except.ok.injEq, Spec.Script.hasCanonicalPushes, Bool.and_eq_true, List.all_eq_true]
+  constructor
+  · rintro ⟨h1, h2⟩
+    obtain ⟨hv, hs⟩ := (parse_iff _ s).mp (by rw [← h1])
+    exact ⟨(Spec.Script.parse s).1,
+      fun p hp => ⟨hv p hp, (canonicalPush_iff (hv p hp)).mp (h2 p hp)⟩, hs⟩
+  · rintro ⟨ops, h, hs⟩
+    have := (parse_iff ops s).mpr ⟨fun p hp => (h p hp).1, hs⟩
+    rw [this]
+    exact ⟨rfl, fun p hp => (canonicalPush_iff (h p hp).1).mpr (h p hp).2⟩
+
+/-- every script is a complete part followed by nothing or by a truncated push -/
+theorem script_decomposition (s : Bytes) :
+    ∃ a b, s = a ++ b ∧ Model.Script.isValid a = .ok true ∧ (b = [] ∨ Spec.Script.TruncatedPush b) := by
+  obtain ⟨rest, h1, h2, h3, _⟩ := raw_iter_partition s
+  refine ⟨((Model.Script.rawIter s).1.map Model.Script.RawOp.enc).flatten, rest, h1, ?_, ?_⟩
+  · rw [isValid_iff]
+    obtain ⟨e1, _, e3⟩ := raw_iter_eq_spec s
+    refine ⟨(Model.Script.rawIter s).1.map Model.Script.RawOp.pair, ?_, ?_⟩
+    · intro p hp
+      simp only [List.mem_map] at hp
+      obtain ⟨o, ho, rfl⟩ := hp
+      -- each yielded operation came from a successful GetScriptOp
+      have : o.pair ∈ (Spec.Script.parse s).1 := by rw [← e1]; exact List.mem_map.mpr ⟨o, ho, rfl⟩
+      exact parse_ops_valid s _ this
+    · simp only [encOps, List.map_map]
+      rfl
+  · rcases he : (Model.Script.rawIter s).2 with _ | e
+    · exact Or.inl (h2 he)
+    · obtain ⟨_, _, _, _, ht⟩ := h3 e he
+      exact Or.inr ht
+
+/-! signature-operation counting pinned by laws rather than by its definition: with
+    `script_decomposition` these determine the count of every byte string -/
+
+/-- a single non-push opcode: 1 for CHECKSIG(VERIFY), 20 for CHECKMULTISIG(VERIFY), else 0; a single
+    complete push: 0 — in both modes -/
+theorem sigops_single (o : Nat) (d : Bytes) (hv : ValidOp o d) (acc : Bool) :
+    Model.Script.getSigOpCount (opEnc o d) acc =
+      .ok (if o = 0xac ∨ o = 0xad then 1 else if o = 0xae ∨ o = 0xaf then 20 else 0) := by
+  rw [sigops_eq_spec, sigOpCount_single acc hv]
+
+/-- `OP_k CHECKMULTISIG(VERIFY)` counts k in accurate mode -/
+theorem sigops_opn_multisig (k m : Nat) (hk : 1 ≤ k ∧ k ≤ 16) (hm : m = 0xae ∨ m = 0xaf) :
+    Model.Script.getSigOpCount [UInt8.ofNat (0x50 + k), UInt8.ofNat m] true = .ok k := by
+  rw [sigops_eq_spec, sigOpCount_opn_multisig k m hk hm]
+
+/-- the count is additive over a complete prefix: always in legacy mode, and in accurate mode
+    whenever the second part does not begin with CHECKMULTISIG(VERIFY) -/
+theorem sigops_append (a b : Bytes) (acc : Bool) (ha : Model.Script.isValid a = .ok true)
+    (h : acc = false ∨ ∀ x, b.head? = some x → x.toNat ≠ 0xae ∧ x.toNat ≠ 0xaf) (na nb : Nat)
+    (hna : Model.Script.getSigOpCount a acc = .ok na) (hnb : Model.Script.getSigOpCount b acc = .ok nb) :
+    Model.Script.getSigOpCount (a ++ b) acc = .ok (na + nb) := by
+  rw [pred_eq_spec_valid] at ha
+  simp only [Except.ok.injEq, Spec.Script.isValid] at ha
+  rw [sigops_eq_spec] at hna hnb ⊢
+  simp only [Except.ok.injEq] at hna hnb
+  rw [sigOpCount_append_add acc a b ha h, hna, hnb]
+
+/-- the general accurate-mode law: the second part is counted starting from the last opcode of the first -/
+theorem sigops_append_general (a b : Bytes) (acc : Bool) (ha : Model.Script.isValid a = .ok true) :
+    Model.Script.getSigOpCount (a ++ b) acc =
+      .ok (Spec.Script.sigOpCount acc a +
+        Spec.Script.sigOpsFrom acc (Spec.Script.lastOpcodeFrom 0xff (Spec.Script.parse a).1)
+          (Spec.Script.parse b).1) := by
+  rw [pred_eq_spec_valid] at ha
+  simp only [Except.ok.injEq, Spec.Script.isValid] at ha
+  rw [sigops_eq_spec, sigOpCount_append acc a b ha]
+
+/-- counting stops at the first malformed push: a truncated tail contributes nothing and hides
+    nothing that precedes it -/
+theorem sigops_truncated_tail (a b : Bytes) (acc : Bool) (ha : Model.Script.isValid a = .ok true)
+    (hb : Spec.Script.TruncatedPush b) :
+    Model.Script.getSigOpCount (a ++ b) acc = Model.Script.getSigOpCount a acc := by
+  rw [pred_eq_spec_valid] at ha
+  simp only [Except.ok.injEq, Spec.Script.isValid] at ha
+  rw [sigops_eq_spec, sigops_eq_spec, sigOpCount_truncated acc a b ha hb]
+
+/-! ### the opcode-instance table -/
+
+/-- both call sites of `CScriptOp(n)` stay inside the 256-entry table (so the `n = 256` append path
+    and the assert are unreachable) and get the instance of the byte they meant: the signed
+    `'<bb'` byte of is_witness_scriptpubkey (−128..127, negative indices wrap to the same entry) and
+    the opcode byte of GetSigOpCount -/
+theorem opcode_lookup_in_table :
+    (∀ b : UInt8, Model.Script.cscriptOpNew (Model.Script.signedByte b) = .ok b.toNat) ∧
+    (∀ n : Nat, n < 256 → Model.Script.cscriptOpNew (n : Int) = .ok n) :=
+  ⟨cscriptOpNew_signedByte, cscriptOpNew_nat⟩
 
 /-! ### non-vacuity: concrete values meeting the hypotheses -/
 
